@@ -1,67 +1,54 @@
 ---------------------------- MODULE Accumulator ----------------------------
-EXTENDS Wire, CobsFn, SequencesExt
-CONSTANTS N, Alphabet, MaxChunk, Target, Fit   \* Fit = TRUE: environment of C08 (every segment fits)
+(* postcard::accumulator::CobsAccumulator<N>::feed_ref as a pure step function of the buffered bytes and
+   the chunk given, with the code's five branches named. The model-checking instance (mc/MC_Acc) wraps
+   it in an environment that may feed any chunk in any state and re-feeds remainders as documented. *)
+EXTENDS Wire, Cobs, SequencesExt
+MAXRUN == 254
 
-\* postcard::from_bytes_cobs::<Target>(frame): [kind |-> "Success", v] or [kind |-> "DeserError"]
-FromBytesCobs(frame) ==
-  LET r == DecodeReport(frame) IN
-  IF ~r.ok THEN [kind |-> "DeserError", v |-> 0]
-  ELSE LET d == Dec(Target, r.out, 0) IN IF d.ok THEN [kind |-> "Success", v |-> d.v] ELSE [kind |-> "DeserError", v |-> 0]
+\* postcard::from_bytes_cobs::<target>(frame) as the accumulator sees it
+FrameOutcome(target, frame) ==
+  LET r == FromCobs(frame, MAXRUN, LAMBDA p : Dec(target, p, 0)) IN
+  IF r.kind = "ok" THEN [kind |-> "Success", v |-> r.v, tk |-> r.tk] ELSE [kind |-> "DeserError", v |-> 0, tk |-> <<>>]
 
-\* one call of feed_ref as a pure function of (buffered bytes, input); branch names are the code's branches
-Feed(b, c) ==
-  IF c = <<>> THEN [br |-> "Empty", buf |-> b, kind |-> "Consumed", v |-> 0, rem |-> <<>>]
+\* one call of feed_ref; cap = N, b = buffered bytes (idx = Len(b)), c = input
+Feed(cap, target, b, c) ==
+  IF c = <<>> THEN [br |-> "Empty", buf |-> b, kind |-> "Consumed", v |-> 0, rem |-> <<>>, tk |-> <<>>]
   ELSE LET z == FirstZero(c) IN
     IF z # 0 THEN
       LET take == SubSeq(c, 1, z)  release == SubSeq(c, z + 1, Len(c)) IN
-      IF Len(b) + Len(take) <= N
-      THEN LET r == FromBytesCobs(b \o take) IN [br |-> "ZeroFits", buf |-> <<>>, kind |-> r.kind, v |-> r.v, rem |-> release]
-      ELSE [br |-> "ZeroOver", buf |-> <<>>, kind |-> "OverFull", v |-> 0, rem |-> release]
-    ELSE IF Len(b) + Len(c) > N
-      THEN [br |-> "NoZeroOver", buf |-> <<>>, kind |-> "OverFull", v |-> 0, rem |-> SubSeq(c, N - Len(b) + 1, Len(c))]
-      ELSE [br |-> "NoZeroFits", buf |-> b \o c, kind |-> "Consumed", v |-> 0, rem |-> <<>>]
+      IF Len(b) + Len(take) <= cap
+      THEN LET r == FrameOutcome(target, b \o take) IN [br |-> "ZeroFits", buf |-> <<>>, kind |-> r.kind, v |-> r.v, rem |-> release, tk |-> r.tk]
+      ELSE [br |-> "ZeroOver", buf |-> <<>>, kind |-> "OverFull", v |-> 0, rem |-> release, tk |-> <<>>]
+    ELSE IF Len(b) + Len(c) > cap
+      THEN [br |-> "NoZeroOver", buf |-> <<>>, kind |-> "OverFull", v |-> 0, rem |-> SubSeq(c, cap - Len(b) + 1, Len(c)), tk |-> <<>>]
+      ELSE [br |-> "NoZeroFits", buf |-> b \o c, kind |-> "Consumed", v |-> 0, rem |-> <<>>, tk |-> <<>>]
 
-VARIABLES buf, window, seg, segOver
-vars == <<buf, window, seg, segOver>>
-Chunks == UNION {[1..k -> Alphabet] : k \in 1..MaxChunk}
-\* would feeding chunk c keep every segment within capacity?  (used only when Fit)
-RECURSIVE FitsFrom(_, _)
-FitsFrom(pending, c) ==       \* pending = length of the current segment so far
-  IF c = <<>> THEN pending <= N
+\* would feeding chunk c keep every segment within capacity?  (environment of C08)
+RECURSIVE FitsFrom(_, _, _)
+FitsFrom(cap, pending, c) ==       \* pending = length of the current segment so far
+  IF c = <<>> THEN pending <= cap
   ELSE LET z == FirstZero(c) IN
-       IF z = 0 THEN pending + Len(c) <= N
-       ELSE pending + z <= N /\ FitsFrom(0, SubSeq(c, z + 1, Len(c)))
+       IF z = 0 THEN pending + Len(c) <= cap
+       ELSE pending + z <= cap /\ FitsFrom(cap, 0, SubSeq(c, z + 1, Len(c)))
 
-\* ---- per-transition obligations (C08/C09), evaluated on EVERY explored edge ----
-EdgeOK(r, consumed, endsZero) ==
-  /\ consumed \o r.rem = window                                                         \* Conserve
+\* ---- per-transition obligations (C08/C09) in terms of the ghost "current segment" ----
+\* seg: bytes of the current segment consumed so far (meaningful while ~segOver); segOver: an overflow was
+\* already reported inside the current segment
+EdgeOK(cap, target, fit, window, seg, segOver, r) ==
+  LET consumed == SubSeq(window, 1, Len(window) - Len(r.rem))
+      endsZero == consumed # <<>> /\ consumed[Len(consumed)] = 0 IN
+  /\ Len(r.rem) <= Len(window) /\ consumed \o r.rem = window                            \* Conserve
   /\ (r.kind # "Consumed") <=> (endsZero \/ r.br = "NoZeroOver")                          \* OnePerZero
   /\ endsZero => r.buf = <<>>                                                            \* InitAfterZero
-  /\ (endsZero /\ ~segOver /\ Len(seg) + Len(consumed) <= N) =>                          \* FrameResult
-        LET f == FromBytesCobs(seg \o consumed) IN r.kind = f.kind /\ r.v = f.v
-  /\ (endsZero /\ ~segOver /\ Len(seg) + Len(consumed) > N) => r.kind = "OverFull"       \* OverflowReported
-  /\ Fit => r.kind # "OverFull"                                                          \* NoOverWhenFit
-
-Init == buf = <<>> /\ window = <<>> /\ seg = <<>> /\ segOver = FALSE
-NewChunk == /\ window = <<>>
-            /\ \E c \in Chunks : (Fit => FitsFrom(Len(seg), c)) /\ window' = c
-            /\ UNCHANGED <<buf, seg, segOver>>
-FeedStep == /\ window # <<>>
-            /\ LET r == Feed(buf, window)
-                   consumed == SubSeq(window, 1, Len(window) - Len(r.rem))
-                   endsZero == consumed # <<>> /\ consumed[Len(consumed)] = 0
-               IN /\ Assert(EdgeOK(r, consumed, endsZero), <<"edge obligation failed", buf, window, seg, segOver, r>>)
-                  /\ buf' = r.buf /\ window' = r.rem
-                  /\ IF endsZero THEN seg' = <<>> /\ segOver' = FALSE
-                     ELSE IF r.kind = "OverFull" THEN seg' = <<>> /\ segOver' = TRUE
-                     ELSE seg' = (IF segOver THEN <<>> ELSE seg \o consumed) /\ UNCHANGED segOver
-Next == NewChunk \/ FeedStep
-Spec == Init /\ [][Next]_vars /\ WF_vars(FeedStep)
-
-IdxBound == Len(buf) <= N
-BufIsSeg == ~segOver => buf = seg
-\* ---- progress of the documented loop (N >= 1) ----
-Less(w2, b2, w1, b1) == Len(w2) < Len(w1) \/ (Len(w2) = Len(w1) /\ Len(b2) < Len(b1))
-Progress == [][window # <<>> => Less(window', buf', window, buf)]_vars
-Drains == []<>(window = <<>>)
+  /\ (endsZero /\ ~segOver /\ Len(seg) + Len(consumed) <= cap) =>                        \* FrameResult
+        LET f == FrameOutcome(target, seg \o consumed) IN r.kind = f.kind /\ r.v = f.v
+  /\ (endsZero /\ ~segOver /\ Len(seg) + Len(consumed) > cap) => r.kind = "OverFull"     \* OverflowReported
+  /\ fit => r.kind # "OverFull"                                                          \* NoOverWhenFit
+\* ghost update
+NextSeg(window, seg, segOver, r) ==
+  LET consumed == SubSeq(window, 1, Len(window) - Len(r.rem))
+      endsZero == consumed # <<>> /\ consumed[Len(consumed)] = 0 IN
+  IF endsZero THEN [seg |-> <<>>, over |-> FALSE]
+  ELSE IF r.kind = "OverFull" THEN [seg |-> <<>>, over |-> TRUE]
+  ELSE [seg |-> IF segOver THEN <<>> ELSE seg \o consumed, over |-> segOver]
 =============================================================================
